@@ -53,11 +53,13 @@ func (g *Gen) verifyContract(p *program, c *Contract) (obs []*Oblig, x *fx, err 
 	if err != nil {
 		return []*Oblig{mk("binds", err.Error())}, nil, nil
 	}
-	// every loop clause must bind to an existing loop
+	// loop clauses bind to existing loops
 	nl := len(x2.loopList)
 	for _, cl := range append(append([]*Clause{}, c.Invariants...), c.Decreases...) {
 		if cl.Loop < 1 || cl.Loop > nl {
-			return []*Oblig{mk("binds", fmt.Sprintf("contract does not bind: clause for loop=%d but the function has %d loops", cl.Loop, nl))}, x2, nil
+			// a loop clause for a loop that is gone (e.g. replaced by clear or copy)
+			// is unused, not a violation: the postconditions decide
+			x2.warnings = append(x2.warnings, fmt.Sprintf("clause %q for loop=%d is unused: the function has %d loops", cl.Label, cl.Loop, nl))
 		}
 	}
 	return x2.obs, x2, nil
